@@ -1,4 +1,4 @@
-CONSTANTS FULLGRID = TRUE  SIZES = {1, 2, 3, 4, 5, 6, 7, 8, 9, 10, 11, 12, 13, 15, 16, 17, 31, 32, 33, 64, 65, 252, 253, 254}  EMIT = TRUE
+CONSTANTS FULLGRID = TRUE  SIZES = {1, 2, 3, 4, 5, 6, 7, 8, 9, 10, 11, 12, 13, 15, 16, 17, 31, 32, 33, 64, 65}  BIG = {252, 253, 254, 300}  EMIT = TRUE
 SPECIFICATION Spec
 INVARIANTS HeaderImage BlockImage BlockHeadReadBack
 CHECK_DEADLOCK FALSE
